@@ -229,3 +229,48 @@ size_t x_ec_sweep(octet* out, const ec_o* ec, const octet* pts, size_t npts, uns
 	return cnt;
 }
 bool_t x_ec_has_tpl(const ec_o* ec) { return ec->tpl != 0; }
+
+/* ---- btok_cvc_t accessors (no struct layout knowledge on the Python side) */
+size_t x_cvc_sizeof(void) { return sizeof(btok_cvc_t); }
+void x_cvc_fill(btok_cvc_t* c, const char* authority, const char* holder, const octet from[6], const octet until[6], unsigned hat)
+{
+	memset(c, 0, sizeof(*c));
+	strncpy(c->authority, authority, 12);
+	strncpy(c->holder, holder, 12);
+	memcpy(c->from, from, 6);
+	memcpy(c->until, until, 6);
+	memset(c->hat_eid, (int)(hat & 0xFF), 5);
+	memset(c->hat_esign, (int)((hat >> 8) & 0xFF), 2);
+}
+void x_cvc_setkey(btok_cvc_t* c, const octet* pubkey, size_t len) { memset(c->pubkey, 0, 128); memcpy(c->pubkey, pubkey, len); c->pubkey_len = len; }
+/* field: 0 authority 1 holder 2 pubkey 3 pubkey_len 4 from 5 until 6 hat_eid 7 hat_esign 8 sig 9 sig_len ; copies the field to out, returns its size */
+size_t x_cvc_get(octet* out, const btok_cvc_t* c, unsigned field)
+{
+	const void* p; size_t n;
+	switch (field)
+	{
+	case 0: p = c->authority; n = 13; break;
+	case 1: p = c->holder; n = 13; break;
+	case 2: p = c->pubkey; n = 128; break;
+	case 3: p = &c->pubkey_len; n = sizeof(size_t); break;
+	case 4: p = c->from; n = 6; break;
+	case 5: p = c->until; n = 6; break;
+	case 6: p = c->hat_eid; n = 5; break;
+	case 7: p = c->hat_esign; n = 2; break;
+	case 8: p = c->sig; n = 96; break;
+	default: p = &c->sig_len; n = sizeof(size_t); break;
+	}
+	if (out) memcpy(out, p, n);
+	return n;
+}
+void x_cvc_set(btok_cvc_t* c, unsigned field, const octet* in, size_t n)
+{
+	void* p;
+	switch (field)
+	{
+	case 0: p = c->authority; break; case 1: p = c->holder; break; case 2: p = c->pubkey; break; case 3: p = &c->pubkey_len; break;
+	case 4: p = c->from; break; case 5: p = c->until; break; case 6: p = c->hat_eid; break; case 7: p = c->hat_esign; break;
+	case 8: p = c->sig; break; default: p = &c->sig_len; break;
+	}
+	memcpy(p, in, n);
+}
